@@ -160,6 +160,114 @@ def class_cases(tier):
 HOUT = ("pass", "fail", "error", "pending", "skip")
 
 
+# ---- the same step text under several step types ------------------------------------------------------------
+TYPES = ("given", "when", "then")
+TEXT_X = u"the door is open"
+
+
+def typed_case(case):
+    """case = (scenarios, defs): scenarios = tuple of tuples of (keyword, step type) lines, all with the SAME step
+    text; defs = {step type: None | "pass" | "fail"} - one definition per step type (or none). The status of each step
+    is determined by what ITS OWN type's function did (no definition -> undefined); lookups of the same text under
+    another type - earlier in the scenario or in an earlier scenario - must not matter."""
+    scenarios, defs = case
+    defs = dict(defs)
+    from behave.parser import parse_feature
+    from behave.step_registry import StepRegistry
+    from behave.runner import ModelRunner
+    from behave.configuration import Configuration
+    from behave import matchers
+    harness.reset_globals()
+    lines = [u"Feature: F"]
+    for i, sc in enumerate(scenarios):
+        lines.append(u"  Scenario: S%d" % i)
+        for kw, st in sc:
+            lines.append(u"    %s %s" % (kw, TEXT_X))
+    feature = parse_feature(u"\n".join(lines) + u"\n", filename="typed.feature")
+    reg = StepRegistry()
+    calls = []
+
+    def make(st, kind):
+        def impl(ctx):
+            calls.append(st)
+            assert kind == "pass", "boom"
+        impl.__name__ = "step_%s_%s" % (st, kind)
+        return impl
+    for st in TYPES:
+        if defs.get(st):
+            reg.add_step_definition(st, TEXT_X, make(st, defs[st]))
+    config = Configuration(["-f", "null"], load_config=False)
+    old = sys.stdout, sys.stderr
+    sys.stdout, sys.stderr = io.StringIO(), io.StringIO()
+    escaped = None
+    try:
+        runner = ModelRunner(config, [feature], step_registry=reg)
+        runner.run()
+    except BaseException as e:      # noqa
+        escaped = type(e).__name__
+    finally:
+        sys.stdout, sys.stderr = old
+    v = []
+    got = [[s_.status.name for s_ in sc.steps] for sc in feature.scenarios]
+    want, want_calls = [], []
+    for sc in scenarios:
+        row, stopped = [], False
+        for kw, st in sc:
+            kind = defs.get(st)
+            if stopped:
+                row.append("skipped" if kind else "undefined")
+            elif not kind:
+                row.append("undefined")
+                stopped = True
+            else:
+                want_calls.append(st)
+                row.append("passed" if kind == "pass" else "failed")
+                stopped = kind != "pass"
+        want.append(row)
+    shape = "one-scenario" if len(scenarios) == 1 else "two-scenarios"
+    cont = "continuation-keyword" if any(kw in ("And", "But", "*") for sc in scenarios for kw, st in sc) else "primary-keywords"
+    if escaped:
+        v.append(({"subcheck": "typed-same-text", "clause": "exception-escapes-run", "exc": escaped}, "run raised %s" % escaped))
+    elif got != want:
+        v.append(({"subcheck": "typed-same-text", "clause": "status", "shape": shape, "keywords": cont},
+                  "same text under several step types %r, definitions %r: statuses %r, expected %r" % (scenarios, defs, got, want)))
+    elif calls != want_calls:
+        v.append(({"subcheck": "typed-same-text", "clause": "call-log", "shape": shape, "keywords": cont},
+                  "same text under several step types %r, definitions %r: functions called %r, expected %r"
+                  % (scenarios, defs, calls, want_calls)))
+    return {"v": v, "nt": digest(case), "out": ("typed", tuple(map(tuple, got))[:2]), "dg": (got, calls, escaped)}
+
+
+def typed_cases(tier):
+    prim = {"given": "Given", "when": "When", "then": "Then"}
+
+    def seqs(n):
+        """all sequences of n lines: step types free; a line of the same type as its predecessor may also be written
+        with And / But / *"""
+        for types in itertools.product(TYPES, repeat=n):
+            opts = []
+            for i, st in enumerate(types):
+                o = [prim[st]]
+                if i and types[i - 1] == st:
+                    o += ["And", "But", "*"]
+                opts.append([(kw, st) for kw in o])
+            for combo in itertools.product(*opts):
+                yield combo
+    all_defs = [tuple(zip(TYPES, d)) for d in itertools.product((None, "pass", "fail"), repeat=3) if any(d)]
+    progs = [(s_,) for n in (2, 3) for s_ in seqs(n)]
+    progs += [(a, b) for a in seqs(1) for b in seqs(2)] + [(a, b) for a in seqs(2) for b in seqs(1)]
+    cont2 = [s_ for s_ in seqs(2) if s_[1][0] in ("And", "But", "*")]
+    if tier != "quick":
+        progs += [(a, b) for a in seqs(2) for b in seqs(2)]
+    else:
+        # the same continuation keyword under two step types: "Given X / And X" then "Then X / And X"
+        progs += [(a, b) for a in cont2 for b in cont2 if a[0][1] != b[0][1]]
+    for pr in progs:
+        for d in all_defs:
+            yield (pr, d)
+
+
+
 def history_case(case):
     """case = (kind, nbg, reset_between, tables: tuple of outcome tuples)"""
     kind, nbg, reset, tables = case
@@ -249,5 +357,7 @@ def run(ctx):
                   "contexts": len(CONTEXTS), "switch_combinations": 8, "history_runs": 2 if ctx.quick else 3}
     ctx.sweep(run_case, cases(ctx.tier), chunk=64, name="outcome sequences x contexts x switches")
     ctx.sweep(run_case, class_cases(ctx.tier), chunk=64, name="exception classes around every except clause of Step.run")
+    ctx.sweep(typed_case, typed_cases(ctx.tier), chunk=64,
+              name="the same step text under several step types (typed definitions differ or are missing)")
     ctx.sweep(history_case, history_cases(ctx.tier), chunk=32, name="re-run histories of one model object")
     ctx.guard(len(ctx.outcomes) > 200, "at least 200 distinct observed outcome classes")
